@@ -100,6 +100,19 @@ Theorem C09_stride_accepted_shape : forall data ncomp src, float_source data nco
 Proof. exact stride_accepted. Qed.
 Print Assumptions C09_stride_accepted_shape.
 
+(* the load path's normalising branch (params S, T, P: every third value dropped): a
+   float_array that is not a multiple of its stride 3 - remainder 1 or 2 - is rejected, and an
+   accepted one has exactly length/3 two-component elements *)
+Theorem C09_stride_rejected_on_load_stp : forall data n, length data mod 3 <> 0 ->
+  float_source_load true data n = Raise DaeMalformed.
+Proof. exact stp_stride_rejected. Qed.
+Print Assumptions C09_stride_rejected_on_load_stp.
+
+Theorem C09_stp_accepted_exact : forall data n src, float_source_load true data n = Ok src ->
+  s_ncomp src = 2 /\ s_len src * 3 = length data.
+Proof. exact stp_accepted. Qed.
+Print Assumptions C09_stp_accepted_exact.
+
 (* whenever a vertex input is present, nothing but DaeMalformedError escapes a constructor *)
 Theorem C09_only_malformed_escapes : forall kd ins mat s e, stream_ok kd s -> bucket VERTEX ins <> [] ->
   construct kd ins mat s = Raise e -> e = DaeMalformed.
